@@ -425,6 +425,20 @@ def hair_params(U):
     return out
 
 
+def unit_matrix(rec, drv, case, name, fn, cmd, *args, multi=False):
+    """unit level tie: a transformation matrix of heavy.* against the model's matrix (exact data); `multi`: a list of matrices"""
+    mat = impl(fn)
+    mm = drv.call(cmd, *args)
+    if mat[0] != "ok" or mm[0] != "ok":
+        l2(rec, name + ".status", case, errkind(mat), errkind(mm), (mat[0] == "ok") == (mm[0] == "ok"))
+        return None
+    canon_m = lambda M: tuple(tuple(frac(x) for x in row) for row in M)      # noqa: E731
+    got = tuple(canon_m(M) for M in mat[1]) if multi else canon_m(mat[1])
+    want = tuple(tup(M) for M in mm[1]) if multi else tup(mm[1])
+    l2(rec, name, case, got, want, got == want)
+    return got
+
+
 def nontrivial_kv(U):
     p, n, knots = kv_info(U)
     return p >= 2 or len(knots) > 2
